@@ -9,3 +9,8 @@ import Norad.Props.C09
 #print axioms C09.api_built_fonts_safe
 #print axioms C09.save_frame
 #print axioms C09.save_tree_depends_only_on_font
+#print axioms C09.exactly_the_determined_files
+#print axioms C09.loaded_layer_dirs_single_component
+#print axioms C09.loaded_store_keys_safe
+#print axioms C09.loaded_font_safePaths
+#print axioms C09.save_frame_loaded
